@@ -364,6 +364,10 @@ class CopyAnalysis:
                 raise TranslateError(f'{label}: unrecognised comprehension `{ast.unparse(e)}`')
             g = e.generators[0]
             it = g.iter
+            partial = False
+            if isinstance(it, ast.Subscript) and isinstance(it.slice, ast.Slice) and _self_attr(it.value, src) is not None:
+                # a slice of the field: only part of the elements is carried over
+                it, partial = it.value, True
             ok_iter = _self_attr(it, src) is not None or (
                 isinstance(it, ast.Call) and isinstance(it.func, ast.Attribute) and it.func.attr in ('values', 'items')
                 and _self_attr(it.func.value, src) is not None)
@@ -376,6 +380,8 @@ class CopyAnalysis:
             else:
                 raise TranslateError(f'{label}: comprehension target `{ast.unparse(g.target)}`')
             elt = e.elt if isinstance(e, ast.ListComp) else e.value
+            if partial:
+                return 'partial'
             if isinstance(elt, ast.Name) and elt.id == var:
                 return 'shallow'
             if isinstance(elt, ast.Call) and isinstance(elt.func, ast.Attribute) and elt.func.attr == 'copy' \
@@ -404,8 +410,8 @@ class CopyAnalysis:
             if wrap == 'newid' or kind in ('KId', 'KCtx'):
                 return 'HNewId' if kind != 'KCtx' else 'HCtx'
             return 'HMissing'          # an unrelated parameter: the original's value is not carried over
-        if arg == 'const':
-            return 'HMissing'
+        if arg in ('const', 'partial'):
+            return 'HMissing'          # (partial: built from a slice of the field — the value is not carried over whole)
         if arg == 'copycall':
             # x.copy(): the library's own deep copy for objects; for builtin containers a shallow copy
             arg = 'shallow' if kind.startswith('KCont') else 'deep'
@@ -457,9 +463,14 @@ class CopyAnalysis:
         info = self.classes[cname]
         cen = Census(label, info)
         cen.builder = 'shallow'
+        through_ctor = ast.unparse(call.func) != 'copy.copy'
         for f in info.fields:
             kind = kind_of(info.name, f, info.ann.get(f))
-            cen.set(f, 'HCtx' if kind == 'KCtx' else 'HShare', f'{src}.{f}   (shared: not given to {ast.unparse(call.func)})', [f])
+            # attrs.evolve / dataclasses.replace call the constructor with the current value of every field that is
+            # not given: converters (`set`, `list`) and ID allocation run again; copy.copy shares the reference
+            wrap = info.feeds.get(f, (f, 'direct'))[1] if through_ctor and info.feeds.get(f, (f,))[0] == f else 'direct'
+            how = 'HCtx' if kind == 'KCtx' else self.final_how(info, f, 'share', wrap, label)
+            cen.set(f, how, f'{src}.{f}   (not given to {ast.unparse(call.func)}: current value{", through the constructor" if wrap != "direct" else ""})', [f])
         saved, self.src_class = self.src_class, cname
         env = env or {}
         if src_expr is not None and call.keywords:
